@@ -15,7 +15,7 @@ use std::sync::atomic::{AtomicBool, AtomicUsize, Ordering};
 use std::sync::{Arc, Mutex};
 use std::time::Duration;
 
-pub const RULE: &str = "a scripted fake node consumes a generated per-attempt outcome sequence over {refused (port closed), accepted-then-closed, closed-while-idle (replies, then closes), silent-until-timeout, malformed reply, application error, success}; a probe at the start of every fleet attempt (verif-hooks) lets the node switch its listener deterministically and counts attempts including refused ones; calls are issued one after another until the script is consumed, followed by a healthy phase; oracle per call: attempts <= max_attempts, nothing is attempted after a reply, the result is that reply (value / application error) or an error if no reply arrived, application errors are never retried; healthy phase: success by the second call at the latest (never wedged); exhaustive over all outcome sequences of length <= max_attempts+2 for max_attempts 1..3 in thorough, stratified sample in quick, on Fleet and AsyncFleet; broadcast: all tag subsets over up to 4 nodes address exactly the nodes carrying all requested tags with one result each; non-trivial = at least one transport failure followed by the healthy phase; distinct = case hash";
+pub const RULE: &str = "a scripted fake node consumes a generated per-attempt outcome sequence over {refused (port closed), accepted-then-closed, closed-while-idle (replies, then closes), silent-until-timeout, malformed reply, application error, success}; a probe at the start of every fleet attempt (verif-hooks) lets the node switch its listener deterministically and counts attempts including refused ones; calls are issued one after another until the script is consumed, followed by a healthy phase; oracle per call: attempts <= max_attempts, nothing is attempted after a reply, the result is that reply (value / application error) or an error if no reply arrived, application errors are never retried; healthy phase: success by the second call at the latest (never wedged); exhaustive over all outcome sequences of length <= max_attempts+2 for max_attempts 1..3 in thorough, stratified sample in quick, on Fleet and AsyncFleet; broadcast: all tag subsets over up to 4 nodes address exactly the nodes carrying all requested tags with one result each; a connection that went silent stays silent (hung) while new connections are answered; a failing case is re-run once with a 20x longer call timeout and reported only if it fails again; non-trivial = at least one transport failure followed by the healthy phase; distinct = case hash";
 
 #[derive(Debug, Clone, Copy, Serialize, Deserialize, Hash, PartialEq, Eq)]
 pub enum Outcome {
